@@ -1,3 +1,193 @@
 import Usual.Common
-/-! Model driver for C12 (stub: not built yet). -/
-def main : IO Unit := IO.println "stub"
+import Usual.C12.MBuf
+/-! Model driver for C12 (MBuf).  One output line per op line; see harness/C12/h.c for the
+same protocol on the implementation side.
+
+    <ok> <val> <bytes> | <slot>:r=..,w=..,c=..,m=rfn,<contents> …  ## <slot>:a=<alloc>,<data> …
+-/
+open Usual Usual.C12
+
+namespace C12Drv
+
+def nslots : Nat := 4
+def reallocLimit : Nat := 65536
+
+def pat (seed k : Nat) : UInt8 := UInt8.ofNat ((seed + 31 * k + k / 256) % 256)
+
+def fnv (l : List UInt8) : UInt64 :=
+  l.foldl (fun h b => (h ^^^ b.toUInt64) * 0x100000001b3) 0xcbf29ce484222325
+
+def hex64 (x : UInt64) : String :=
+  String.ofList ((List.range 16).map fun i => hexDigit ((x.toNat >>> (4 * (15 - i))) % 16))
+
+def dump (l : List UInt8) : String :=
+  if l.length ≤ 24 then "x=" ++ toHex l else "h=" ++ hex64 (fnv l) ++ ":" ++ toString l.length
+
+def bit (b : Bool) : String := if b then "1" else "0"
+
+def obsSlot (s : State) (i : Nat) : String :=
+  let b := s i
+  s!"{i}:r={b.readPos.toNat},w={b.writePos.toNat},c=" ++
+    (if b.fixed then toString b.allocLen.toNat else "dyn") ++
+    s!",m={bit b.reader}{bit b.fixed}{bit b.isNull}," ++ dump (contents b) ++
+    (if inv b then "" else ",MODEL-INV-BROKEN")
+
+def intSlot (s : State) (i : Nat) : String :=
+  let b := s i
+  s!"{i}:a={b.allocLen.toNat}," ++ dump b.data
+
+def dedup (l : List Nat) : List Nat := l.foldl (fun acc x => if acc.contains x then acc else acc ++ [x]) []
+
+/-- model-side check of the safety predicate (proved to hold; printed only if it ever fails) -/
+def accCheck (s s' : State) (o : Out) : Bool :=
+  o.acc.all fun p => accOk (s p.1) (s' p.1) p.2
+
+def render (s s' : State) (o : Out) (slots : List Nat) (valInternal : Bool := false) : String :=
+  let sl := dedup slots
+  let v := if valInternal then "dyn" else toString o.val
+  s!"{bit o.ok} {v} {toHex o.bytes} | " ++ " ".intercalate (sl.map (obsSlot s')) ++
+    (if accCheck s s' o then "" else " MODEL-UNSAFE") ++
+    " ## " ++ (if valInternal then s!"v={o.val} " else "") ++ " ".intercalate (sl.map (intSlot s'))
+
+def slot? (w : String) : Option Nat :=
+  match w.toNat? with
+  | some n => if n < nslots then some n else none
+  | none => none
+
+def u32? (w : String) : Option UInt32 :=
+  match w.toNat? with
+  | some n => if n < 4294967296 then some (UInt32.ofNat n) else none
+  | none => none
+
+def u8? (w : String) : Option UInt8 :=
+  match w.toNat? with
+  | some n => if n < 256 then some (UInt8.ofNat n) else none
+  | none => none
+
+def ora? (w : String) : Option (UInt32 → Bool) :=
+  if w == "1" then some (fun n => decide (n.toNat ≤ reallocLimit))
+  else if w == "0" then some (fun _ => false)
+  else none
+
+/-- parse one op line -/
+def parseOp (ws : List String) : Option (Op × List Nat) :=
+  match ws with
+  | ["initr", i, h] => do
+    let i ← slot? i; let d ← parseHex h
+    if d.length > reallocLimit then none
+    else some (.initReader i (UInt32.ofNat d.length) (fun k => d.getD k 0), [i])
+  | ["initw", i, len, seed] => do
+    let i ← slot? i; let len ← u32? len; let seed ← u8? seed
+    if len.toNat > reallocLimit then none
+    else some (.initWriter i len (pat seed.toNat), [i])
+  | ["initd", i] => do let i ← slot? i; some (.initDynamic i, [i])
+  | ["free", i] => do let i ← slot? i; some (.free i, [i])
+  | ["rewr", i] => do let i ← slot? i; some (.rewindReader i, [i])
+  | ["reww", i] => do let i ← slot? i; some (.rewindWriter i, [i])
+  | ["availr", i] => do let i ← slot? i; some (.availRead i, [i])
+  | ["availw", i] => do let i ← slot? i; some (.availWrite i, [i])
+  | ["written", i] => do let i ← slot? i; some (.written i, [i])
+  | ["consumed", i] => do let i ← slot? i; some (.consumed i, [i])
+  | ["eq", i, j] => do let i ← slot? i; let j ← slot? j; some (.eq i j, [i, j])
+  | ["eqstr", i, h] => do
+    let i ← slot? i; let d ← parseHex h
+    if d.contains 0 then none else some (.eqStr i d, [i])
+  | ["getb", i] => do let i ← slot? i; some (.getByte i, [i])
+  | ["getc", i] => do let i ← slot? i; some (.getChar i, [i])
+  | ["get16", i] => do let i ← slot? i; some (.getU16 i, [i])
+  | ["get32", i] => do let i ← slot? i; some (.getU32 i, [i])
+  | ["get64", i] => do let i ← slot? i; some (.getU64 i, [i])
+  | ["getn", i, len] => do let i ← slot? i; let len ← u32? len; some (.getBytes i len, [i])
+  | ["getcs", i, len] => do let i ← slot? i; let len ← u32? len; some (.getChars i len, [i])
+  | ["getstr", i] => do let i ← slot? i; some (.getString i, [i])
+  | ["room", i, len, o] => do
+    let i ← slot? i; let len ← u32? len; let o ← ora? o; some (.makeRoom i len o, [i])
+  | ["wbyte", i, v, o] => do
+    let i ← slot? i; let v ← u8? v; let o ← ora? o; some (.writeByte i v o, [i])
+  | ["write", i, h, o] => do
+    let i ← slot? i; let d ← parseHex h; let o ← ora? o
+    some (.write i (fun k => d.getD k 0) (UInt32.ofNat d.length) o, [i])
+  | ["writen", i, len, seed, o] => do
+    let i ← slot? i; let len ← u32? len; let seed ← u8? seed; let o ← ora? o
+    some (.write i (pat seed.toNat) len o, [i])
+  | ["fill", i, v, len, o] => do
+    let i ← slot? i; let v ← u8? v; let len ← u32? len; let o ← ora? o
+    some (.fill i v len o, [i])
+  | ["wraw", d, c, o] => do
+    let d ← slot? d; let c ← slot? c; let o ← ora? o; some (.writeRaw d c o, [d, c])
+  | ["wmbuf", d, c, len, o] => do
+    let d ← slot? d; let c ← slot? c; let len ← u32? len; let o ← ora? o
+    some (.writeMbuf d c len o, [d, c])
+  | ["cut", i, ofs, len] => do
+    let i ← slot? i; let ofs ← u32? ofs; let len ← u32? len; some (.cut i ofs len, [i])
+  | ["copy", c, d] => do let c ← slot? c; let d ← slot? d; some (.copy c d, [c, d])
+  | ["slice", c, len, d] => do
+    let c ← slot? c; let len ← u32? len; let d ← slot? d; some (.slice c len d, [c, d])
+  | _ => none
+
+/-! ### symbolic length tokens (generator support)
+
+The generator writes lengths relative to the *model's* current cursors: `R+1` (one more than
+`mbuf_avail_for_read` of the slot read from), `W-1` (`avail_for_write` of the slot written),
+`P+0` (`write_pos`), `A+0` (`alloc_len`), `U-3` (`UINT_MAX − 3`), `H+1` (`2^31 + 1`).
+`drv_c12 resolve` prints the concrete op line (tokens replaced by numbers) prefixed by the
+model's return value, and the check then feeds those concrete lines to both sides. -/
+
+def tokenVal (s : State) (rs wsl : Nat) (w : String) : Option Nat :=
+  match w.toList with
+  | b :: sign :: ds =>
+    match (String.ofList ds).toNat? with
+    | none => none
+    | some k =>
+      let base : Option Nat :=
+        if b == 'R' then some (availRead (s rs)).toNat
+        else if b == 'W' then some (availWrite (s wsl)).toNat
+        else if b == 'P' then some (s wsl).writePos.toNat
+        else if b == 'A' then some (s wsl).allocLen.toNat
+        else if b == 'U' then some 4294967295
+        else if b == 'H' then some 2147483648
+        else none
+      match base with
+      | none => none
+      | some v =>
+        if sign == '+' then some (min (v + k) 4294967295)
+        else if sign == '-' then some (v - k)
+        else none
+  | _ => none
+
+def resolveWords (s : State) (ws : List String) : List String :=
+  match ws with
+  | op :: a :: rest =>
+    let first := (slot? a).getD 0
+    let (rs, wsl) : Nat × Nat :=
+      if op == "wmbuf" then
+        match rest with
+        | c :: _ => ((slot? c).getD 0, first)
+        | _ => (first, first)
+      else (first, first)
+    op :: a :: rest.map fun w =>
+      match tokenVal s rs wsl w with
+      | some v => toString v
+      | none => w
+  | _ => ws
+
+def stepLineMode (resolve : Bool) (s : State) (line : String) : State × String :=
+  let ws := words line
+  match ws with
+  | ["#case"] => (State.init, "#case")
+  | _ =>
+    let ws := resolveWords s ws
+    match parseOp ws with
+    | none => (s, "bad-op")
+    | some (op, slots) =>
+      let r := step s op
+      let valInt := match op with
+        | .availWrite i => !(s i).fixed
+        | _ => false
+      if resolve then (r.1, bit r.2.ok ++ " " ++ " ".intercalate ws)
+      else (r.1, render s r.1 r.2 slots valInt)
+
+end C12Drv
+
+def main (args : List String) : IO Unit :=
+  Usual.runDriver Usual.C12.State.init (C12Drv.stepLineMode (args.contains "resolve"))
